@@ -42,7 +42,11 @@ pub fn compile_sources(
   let mut error_set = samlang_errors::ErrorSet::new();
   let mut parsed_sources = std::collections::HashMap::new();
   samlang_profiling::measure_time(enable_profiling, "Parsing", || {
-    for (module_reference, source) in &source_handles {
+    // Parse in an order that depends on the sources only: the order in which strings are first
+    // seen decides how interned names compare, which the checker uses to order what it reports.
+    let mut ordered_sources = source_handles.iter().collect::<Vec<_>>();
+    ordered_sources.sort_by_cached_key(|(module_reference, _)| module_reference.pretty_print(heap));
+    for (module_reference, source) in ordered_sources {
       let parsed = samlang_parser::parse_source_module_from_text(
         source,
         *module_reference,
